@@ -200,6 +200,9 @@ type Pool struct {
 	New   func() interface{}
 	items map[*simrt.Proc][]interface{} // a package-level pool exists once per process: one free list per simulated process
 	epoch uint64
+	// real lock, never held across a park: at the end of a run the goroutines are torn down in parallel (Goexit) and
+	// their deferred calls put objects back outside the token discipline
+	mu sync.Mutex
 }
 
 func (p *Pool) check() {
@@ -211,15 +214,24 @@ func (p *Pool) check() {
 }
 
 func (p *Pool) Get() interface{} {
-	p.check()
 	pr := simrt.CurProc()
-	if n := len(p.items[pr]); n > 0 {
-		// buggify: a real sync.Pool may lose any object at any time
-		if simrt.Buggify("pool-miss") {
+	miss := false
+	p.mu.Lock()
+	p.check()
+	n := len(p.items[pr])
+	p.mu.Unlock()
+	if n > 0 {
+		// buggify: a real sync.Pool may lose any object at any time (drawn outside the lock: nothing that can park,
+		// and New below is instrumented library code, runs while the lock is held)
+		miss = simrt.Buggify("pool-miss")
+		p.mu.Lock()
+		var x interface{}
+		if n = len(p.items[pr]); n > 0 {
+			x = p.items[pr][n-1]
 			p.items[pr] = p.items[pr][:n-1]
-		} else {
-			x := p.items[pr][n-1]
-			p.items[pr] = p.items[pr][:n-1]
+		}
+		p.mu.Unlock()
+		if x != nil && !miss {
 			return x
 		}
 	}
@@ -230,10 +242,12 @@ func (p *Pool) Get() interface{} {
 }
 
 func (p *Pool) Put(x interface{}) {
-	p.check()
 	if x == nil {
 		return
 	}
 	pr := simrt.CurProc()
+	p.mu.Lock()
+	defer p.mu.Unlock()
+	p.check()
 	p.items[pr] = append(p.items[pr], x)
 }
